@@ -77,8 +77,8 @@ where
 }
 
 /// Run `f`, turning a panic into `Err(message)`.
-pub fn catch<R>(f: impl FnOnce() -> R + std::panic::UnwindSafe) -> Result<R, String> {
-    std::panic::catch_unwind(f).map_err(|e| {
+pub fn catch<R>(f: impl FnOnce() -> R) -> Result<R, String> {
+    std::panic::catch_unwind(std::panic::AssertUnwindSafe(f)).map_err(|e| {
         if let Some(s) = e.downcast_ref::<&str>() {
             s.to_string()
         } else if let Some(s) = e.downcast_ref::<String>() {
